@@ -17,21 +17,22 @@ import solver_common as sc
 LEVEL = "model_checking"
 
 
-def cycle_cfg(name, lset, nuset, itsset, emit, defects="{}"):
+def cycle_cfg(name, lset, nuset, itsset, emit, defects="{}", module="CycleOps"):
     path = os.path.join(vlib.BUILD, "cfg", name + ".cfg")
     os.makedirs(os.path.dirname(path), exist_ok=True)
     with open(path, "w") as f:
         f.write("SPECIFICATION Spec\nCONSTANTS\n  LSet = %s\n  NuSet = %s\n  ItsSet = %s\n  Defects = %s\n  EmitTerms = %s\n"
-                "INVARIANTS CycleRefinesMG NoStale RhsPreserved StartRefinesFMG%s\n"
-                % (lset, nuset, itsset, defects, "TRUE" if emit else "FALSE", " Emit" if emit else ""))
+                "INVARIANTS CycleRefinesMG NoStale RhsPreserved StartRefinesFMG%s%s\n"
+                % (lset, nuset, itsset, defects, "TRUE" if emit else "FALSE", " ProgramAgrees ProgramClean SetupRhs" if module == "CycleOps" else "",
+                   " Emit" if emit else ""))
     return path
 
 
 def tlc_terms(rep, tier, want_fmg):
     thorough = tier == "thorough"
-    r = vlib.tlc("Cycle", cycle_cfg("cycle_%s" % tier, "{2,3,4,5}" if thorough else "{2,3,4}", "{0,1,2}", "{0,1,2}", True),
+    r = vlib.tlc("CycleOps", cycle_cfg("cycle_%s" % tier, "{2,3,4,5}" if thorough else "{2,3,4}", "{0,1,2}", "{0,1,2}", True),
                  workers=8, stack="512m", heap="12g", tag="cycle" + tier, timeout=2400)
-    rep.add_tlc(r, "Cycle.tla all configurations")
+    rep.add_tlc(r, "Cycle.tla + CycleOps.tla all configurations (refinement of MG/MGX/FMGStart; the programs interpret to the code-shaped machine)")
     if not vlib.tlc_must_hold(r, "Cycle.tla"):
         rep.violation("model:" + r.violation, "Cycle.tla: %s violated\n%s" % (r.violation, vlib.counterexample(r)[:2500]),
                       replay={"tlc": vlib.counterexample(r)[:8000]})
@@ -50,7 +51,8 @@ def run_cases(rep, cases, label, keyprefix):
     with open(path, "w") as f:
         for c in cases:
             f.write(json.dumps(c, separators=(",", ":")) + "\n")
-    rc, recs, out = vlib.run_driver(exe, [path], timeout=3000)
+    tpath = os.path.join(vlib.BUILD, "cases", "cycle_%s.trace.ndjson" % label)
+    rc, recs, out = vlib.run_driver(exe, [path, tpath], timeout=3000)
     byid = {r["case"]: r for r in recs if "case" in r}
     if rc != 0 or not any(r.get("summary") for r in recs):
         last = max(byid) if byid else 0
@@ -70,6 +72,21 @@ def run_cases(rep, cases, label, keyprefix):
             rep.violation("%s:%s:%s%s" % (keyprefix, kind, "ext" if k["ext"] else "plain", "" if not k["fmg"] else ":fmg"),
                           "%s -- cfg=%s start=%s" % (r["what"], json.dumps(k, sort_keys=True), c["start"]),
                           replay={"case": {kk: c[kk] for kk in ("base", "cfg", "start")}})
+    # the same executions at operator level: the instructions each real cycle performed (with the identities of their operand
+    # vectors) must be the program of CycleOps.tla for that configuration
+    if os.path.exists(tpath) and os.path.getsize(tpath) > 0:
+        _life, _nl, opath, nops = sc.split_trace(tpath)
+        o = sc.validate_ops(opath, label)
+        rep.add_tlc(o["tlc"], "operator-level trace of the replayed cycles (TraceOps.tla): %d events" % nops)
+        rep.cov["operator_events_validated"] = rep.cov.get("operator_events_validated", 0) + nops
+        if not o["accepted"]:
+            d = sc.describe_rejection(o)
+            ev = json.loads(d["rejected_event"]) if d["rejected_event"] else {}
+            cfgk = next((c["cfg"] for c in cases if c["id"] == d["case"]), None)
+            rep.violation("%s:ops:%s" % (keyprefix, ev.get("op", ev.get("e"))),
+                          "the real cycle does not execute the program of CycleOps.tla: event %s is not the expected instruction (case %s cfg=%s, line %s) context=%s"
+                          % (d["rejected_event"], d["case"], json.dumps(cfgk, sort_keys=True), d["line"], json.dumps(d["context"])[:1200]),
+                          replay={"trace": opath, "line": d["line"], "case": d["case"], "cfg": cfgk})
     rep.traces(len(byid))
     rep.cov["bitwise_equal_cases"] = rep.cov.get("bitwise_equal_cases", 0) + nbit
 
@@ -87,6 +104,8 @@ def select(cases, rng, n, must):
 def run(rep, tier):
     thorough = tier == "thorough"
     vlib.sany("Cycle")
+    vlib.sany("CycleOps")
+    vlib.sany("TraceOps")
     rep.assumptions += [
         "the interpreter applies the PUBLIC Level/Interpolation operators of a second, independently set-up object",
         "comparison tolerance 1e-11 relative (bitwise equality is recorded, not required)",
